@@ -29,13 +29,14 @@ S_TR = {"type": "http.response.start", "status": 200, "headers": [], "trailers":
 B = {"type": "http.response.body", "body": b"abc", "more_body": True}
 BF = {"type": "http.response.body", "body": b"xyz", "more_body": False}
 BE = {"type": "http.response.body", "body": b"", "more_body": False}
+BEM = {"type": "http.response.body", "body": b"", "more_body": True}  # nothing to write - a body message all the same
 T = {"type": "http.response.trailers", "headers": [(b"x-t", b"1")], "more_trailers": False}
 TM = {"type": "http.response.trailers", "headers": [(b"x-t0", b"0")], "more_trailers": True}
 P = {"type": "http.response.push", "path": "/pushed", "headers": [(b"x-p", b"1")]}
 EH = {"type": "http.response.early_hint", "links": [b"</style.css>; rel=preload"]}
 U = {"type": "not.a.real.type"}
 EH_LINKS = {"eh-crlf": [b"</a.css>; rel=preload\r\nx-evil: 2"], "eh-nul": [b"</a\x00b>"], "eh-int": [5], "eh-lf-second": [b"</ok>", b"</b>\nx-evil: 3"]}
-HTTP_ALPHABET = [("S", S), ("S2", S2), ("S_TR", S_TR), ("B", B), ("BF", BF), ("BE", BE), ("T", T), ("P", P), ("EH", EH), ("U", U), ("TM", TM)]
+HTTP_ALPHABET = [("S", S), ("S2", S2), ("S_TR", S_TR), ("B", B), ("BF", BF), ("BE", BE), ("T", T), ("P", P), ("EH", EH), ("U", U), ("TM", TM), ("BEM", BEM)]
 
 # invalid payloads (for the start message unless noted)
 BAD_HEADERS = [
